@@ -15,6 +15,8 @@ pub fn variants(kind: Kind, n: usize, child: &Spec) -> Vec<Spec> {
         Pfe | Eft => vec![
             Spec::with_ma(kind, n, c(), Spec::un(Sma, 2, Spec::echo())),
             Spec::with_ma(kind, n, c(), Spec::un(Ema, 3, Spec::echo())),
+            // an averaging view that overshoots its input (not a convex combination)
+            Spec::with_ma(kind, n, c(), Spec::un(SuperSmoother, 2, Spec::echo())),
         ],
         k => vec![mk(k, n, c())],
     }
